@@ -65,9 +65,11 @@ RETCODE adfRenameEntry ( struct AdfVolume * const vol,
     }
     
     intl = isINTL(vol->dosType) || isDIRCACHE(vol->dosType);
-    unsigned len = (unsigned) strlen ( newName );
+    /* names are stored and compared truncated to MAXNAMELEN (name2/name3 hold no more) */
+    unsigned len = min ( (unsigned) strlen ( newName ), (unsigned) MAXNAMELEN );
     adfStrToUpper ( (uint8_t *) name2, (uint8_t*) newName, len, intl );
-    adfStrToUpper ( (uint8_t *) name3, (uint8_t*) oldName, (unsigned) strlen(oldName), intl );
+    adfStrToUpper ( (uint8_t *) name3, (uint8_t*) oldName,
+                    min ( (unsigned) strlen(oldName), (unsigned) MAXNAMELEN ), intl );
     /* newName == oldName ? */
 
     RETCODE rc = adfReadEntryBlock ( vol, pSect, &parent );
@@ -82,8 +84,49 @@ RETCODE adfRenameEntry ( struct AdfVolume * const vol,
         return RC_ERROR;
     }
 
+    /* nothing is modified before the request is known to be valid: the new name must be
+       free in the new parent, and a directory cannot be moved into its own subtree */
+    {
+        struct bEntryBlock chk;
+        const unsigned maxSteps = (unsigned) ( vol->lastBlock - vol->firstBlock + 1 );
+        unsigned steps = 0;
+        rc = adfReadEntryBlock ( vol, nPSect, &chk );
+        if ( rc != RC_OK )
+            return rc;
+        SECTNUM chkSect = chk.hashTable [ adfGetHashValue ( (uint8_t *) newName, intl ) ];
+        while ( chkSect != 0 ) {
+            if ( ++steps > maxSteps )
+                return RC_ERROR;
+            rc = adfReadEntryBlock ( vol, chkSect, &chk );
+            if ( rc != RC_OK )
+                return rc;
+            if ( chkSect != nSect && chk.nameLen == len ) {
+                adfStrToUpper ( (uint8_t *) name3, (uint8_t *) chk.name, len, intl );
+                if ( strncmp ( name3, name2, len ) == 0 ) {
+                    (*adfEnv.wFct)("adfRenameEntry : entry already exists");
+                    return RC_ERROR;
+                }
+            }
+            chkSect = chk.nextSameHash;
+        }
+        if ( entry.secType == ST_DIR ) {
+            chkSect = nPSect;
+            steps = 0;
+            while ( chkSect != vol->rootBlock ) {
+                if ( chkSect == nSect || ++steps > maxSteps ) {
+                    (*adfEnv.wFct)("adfRenameEntry : cannot move a directory into itself");
+                    return RC_ERROR;
+                }
+                rc = adfReadEntryBlock ( vol, chkSect, &chk );
+                if ( rc != RC_OK )
+                    return rc;
+                chkSect = chk.parent;
+            }
+        }
+    }
+
     /* change name and parent dir */
-    entry.nameLen = (uint8_t) min ( 31u, strlen ( newName ) );
+    entry.nameLen = (uint8_t) len;
     memcpy(entry.name, newName, entry.nameLen);
     entry.parent = nPSect;
     tmpSect = entry.nextSameHash;
